@@ -163,7 +163,11 @@ func (x *Exec) step(fr *Frame, ins ssa.Instruction) {
 		cp := x.toInt(x.get(fr, ins.Cap).(*smt.Term), ins.Cap.Type())
 		x.oblige(C.Cmp(smt.OSle, x.e.intTerm(0), ln), "makeslice", "makeslice: len out of range")
 		x.oblige(C.Cmp(smt.OSle, ln, cp), "makeslice", "makeslice: cap out of range")
+		same := ln == cp
 		cpv := x.concretize(cp, "make cap")
+		if same {
+			ln = x.e.intTerm(int64(cpv))
+		}
 		if cpv > 1<<26 {
 			efail("make of %d elements: too large for the engine", cpv)
 		}
